@@ -74,7 +74,10 @@ type verifLast struct {
 }
 
 func VerifHarness_C43_managers() {
-	kind := verifChoose("manager", 3) // 0 IPIP, 1 VXLAN, 2 no-encap
+	kind := verifParam("MANAGER", -1) // 0 IPIP, 1 VXLAN, 2 no-encap
+	if kind < 0 {
+		kind = verifChoose("manager", 3)
+	}
 	rt := &verifRT{sets: map[routetable.RouteClass]map[string][]routetable.Target{}}
 	cfg := Config{Hostname: "n1", ProgramIPIPClusterRoutes: true, IPIPMTU: 1440}
 	var onUpdate func(any)
